@@ -43,7 +43,7 @@ def main():
                 continue
             try:
                 def one(t):
-                    c = sh("cd %s && /venv/bin/python -m sa.check %s --tier quick --no-selfcheck --root %s" % (VERIF, t, wt))
+                    c = sh("cd %s && /venv/bin/python -m sa.check %s --tier quick --no-selfcheck --no-evidence --root %s" % (VERIF, t, wt))
                     lines = [l for l in c.stdout.splitlines() if re.match(r"^\S+: R-C\d+-\d+ ", l) or l.startswith("ANALYSIS-ERROR")]
                     return t, c.returncode, lines[:4]
                 with ThreadPoolExecutor(8) as ex:
